@@ -48,13 +48,13 @@ func runReplay(t *testing.T, res *report.Result, path string) {
 		t.Fatal(err)
 	}
 	rp := f.Replay
-	envs := append(cat.Envelopes(), cat.ExtraEnvelopes()...)
+	envs := append(append(cat.Envelopes(), cat.ExtraEnvelopes()...), cat.LimitEnvelopes()...)
 	switch rp.Property {
 	case "C14":
 		h := &c14{res: res, verbose: true}
 		fmt.Printf("replay C14 %s entry %q serializer %s (clause reported: %s)\n", rp.Kind, rp.Entry, rp.Serializer, rp.Clause)
 		if rp.Kind == "value" {
-			vals := cat.Values()
+			vals := append(cat.Values(), cat.LimitValues()...)
 			for i := range vals {
 				if vals[i].Name == rp.Entry {
 					h.checkValue(vals, i)
